@@ -17,7 +17,12 @@ struct IoGen {
     explicit IoGen(Rng &r) : rng(r) {}
     double alpha() {
         static const double defaults[] = {ldexp(1., -15), ldexp(1., -25), 2.44e-5, 7.18e-9, 0.012467, 1e-12, 0.5, 0.25, 3.0517578125e-05};
-        int r = rng.below(3);
+        // boundary and awkward reals: exactly 0, the smallest denormal and normal numbers, values needing all 17 digits,
+        // values whose decimal text is long, large values
+        static const double awkward[] = {0.0, 4.9406564584124654e-324, 2.2250738585072014e-308, 1e-300, 0.30000000000000004, 0.1, 1.0 / 3.0, 0.49999999999999994,
+                                         1.0, 123456789.12345679, 1e300, 1.7976931348623157e308, 5e-5, 9.9999999999999995e-8};
+        int r = rng.below(4);
+        if (r == 3) return awkward[rng.below(14)];
         if (r == 0) return defaults[rng.below(9)];
         return exp(log(1e-12) + rng.unit() * (log(0.5) - log(1e-12)));   // log-uniform in [1e-12, 0.5]
     }
@@ -179,7 +184,10 @@ inline void fill_tlwe_sample(IoGen &g, TLweSample *s, int N, int k) { int cls = 
 inline PSet *make_pset(IoGen &g, int sz) {
     int n = sz == 0 ? 2 : 2 + g.rng.below(4), l = sz == 0 ? 1 : 1 + g.rng.below(2), Bgbit = sz == 0 ? 4 : 4 + g.rng.below(7);
     int t = sz == 0 ? 1 : 1 + g.rng.below(2), bb = sz == 0 ? 1 : 1 + g.rng.below(2);
-    return new PSet(n, 1024, 1, l, Bgbit, t, bb, g.alpha(), g.alpha(), g.alpha());
+    // these parameter sets are also used to generate keys: noise levels a sampler can be asked for (at most 1/2, 0 included)
+    auto a = [&] { double x; do x = g.alpha(); while (x > 0.5); return x; };
+    double a1 = a(), a2 = a(), a3 = a();
+    return new PSet(n, 1024, 1, l, Bgbit, t, bb, a1, a2, a3);
 }
 
 inline std::vector<Kind> io_kinds() {
